@@ -29,6 +29,9 @@ def _msg(k, w=0, e=0, ids=()):
     return {"k": k, "w": w, "e": e, "ids": [list(i) for i in ids]}
 
 
+PARAM_FAULT_CLASSES = (ValueError, RuntimeError, KeyError, NotImplementedError, ZeroDivisionError, RecursionError, AssertionError)
+
+
 class TracedRace:
     def __init__(self, scn, seed=0, test_mode=True, queue_size=None, pp_interval=2, offsets=None, on_error="continue", downsample=1, fault="none", req_variant="conn_error", fault_delay=0, lenient=()):
         self.scn = scn
@@ -62,7 +65,9 @@ class TracedRace:
                 if world.param_fault == (self_.tid, self_.idx):
                     world.param_fault = None
                     world.fault_fired = True
-                    raise ValueError("verif: parameter source failure")
+                    # the class of the failure is none of the property's business: any exception a parameter source raises
+                    # (but StopIteration, its documented way to end the task) must fail the race
+                    raise PARAM_FAULT_CLASSES[seed % len(PARAM_FAULT_CLASSES)]("verif: parameter source failure")
                 return dict(self_._params)
 
         params.register_param_source_for_name("verif-src", VerifParamSource)
